@@ -14,13 +14,15 @@ node database) on op lines.  `H := sha256`.
   gwi K                   -> <index> <V|->                                GetWithIndex
   gbi I                   -> <K|-> <V|->                                  GetByIndex
   size | height | ver     -> n
-  it A S E INC            -> k=v,k=v,… | -     A = a|d; S, E = hex | `-` (nil); INC 0|1 (end inclusive)
+  it A S E INC            -> k=v,k=v,… | -     A = a|d; S, E = hex | `-` (nil); INC 0|1 (end inclusive);
+                             INC 1 on a working tree with an unsaved leaf in range -> panic:nilderef
   save                    -> <hash> <version> | err:…
   hash | whash            -> <hash>            Hash() (last saved) | WorkingHash()
   rollback                -> ok
   load VER                -> <latest version> | err:…                     LoadVersion
   lvo VER                 -> ok | err:…   (VER ≥ 1)                       LoadVersionForOverwriting
-  delto VER               -> ok | err:…                                   DeleteVersionsTo
+  delto VER               -> ok | err:… | err:guard                       DeleteVersionsTo behind the protocol guard
+                             (`St.deleteVersionsToGuarded`: refused at/above the working tree's base version)
   reopen                  -> <version> | err:…                            NewMutableTree on the same db + Load()
   vex VER | avail         -> true|false | v,v,… | -
   vget VER K              -> <V|->                                        GetVersioned
